@@ -157,17 +157,26 @@ func prune(fetchPruneConfig lfs.FetchPruneConfig, verifyRemote, verifyUnreachabl
 	var verifywait sync.WaitGroup
 
 	if verifyRemote {
+		verifyManifest := getTransferManifestOperationRemote("download", fetchPruneConfig.PruneRemoteName)
 		verifyQueue = newDownloadCheckQueue(
-			getTransferManifestOperationRemote("download", fetchPruneConfig.PruneRemoteName),
+			verifyManifest,
 			fetchPruneConfig.PruneRemoteName,
 		)
 		verifiedObjects = tools.NewStringSetWithCapacity(len(localObjects) / 2)
+
+		// A standalone transfer agent (used for file:// remotes, among
+		// others) is never asked anything by a checking queue, which
+		// reports every object as present; nothing can be verified then.
+		unverifiable := verifyManifest.IsStandaloneTransfer()
 
 		// this channel is filled with oids for which Check() succeeded & Transfer() was called
 		verifyc = verifyQueue.Watch()
 		verifywait.Add(1)
 		go func() {
 			for t := range verifyc {
+				if unverifiable {
+					continue
+				}
 				verifiedObjects.Add(t.Oid)
 				tracerx.Printf("VERIFIED: %v", t.Oid)
 				progressChan <- PruneProgress{PruneProgressTypeVerify, 1}
